@@ -49,6 +49,11 @@ def gen_c13(seed, fam=None, policy=None):
         yield {"id": [seed, "rt", fault], "scn": rt, "seed": seed, "behaviour": beh, "policy": {"kind": "timer"}}
         return
     yield {"id": [seed, fault], "scn": scn, "seed": seed, "behaviour": {"kind": "faulty", "fault": fault}, "policy": dict(policy or {})}
+    if seed % 5 in (1, 2) and req == "step":
+        # the same malformed reply from an in-process simulator that announces API version 2.2 (behind mosaik's adapters, shipped
+        # LocalProxy): what an adapter passes on is validated like a current simulator's reply
+        old = dict(scn, transport="local", sims=[dict(x, api="2.2") if x["sid"] == sid else x for x in scn["sims"]])
+        yield {"id": [seed, "api2.2", fault], "scn": old, "seed": seed, "behaviour": {"kind": "faulty", "fault": fault}, "policy": {"kind": "fifo"}}
 
 
 def gen_c16(seed, policy=None):
@@ -165,9 +170,24 @@ def gen_c09(seed, policy=None):
     if rng.random() < 0.3:  # a second, disjoint loop
         sims += [{"sid": "Se", "type": "hybrid", "gpath": [5]}]
         conns.append({"src": "Se", "dst": "Se", "sa": "e", "da": "ti", "weak": True})
+    rng2 = random.Random(f"c09sib|{seed}")  # (its own random source: the scenarios of a seed stay what they were)
+    if rng2.random() < 0.35:
+        # a second loop in a SIBLING group (same parent, same depth) that is TRIGGERED from the first loop: each loop counts its
+        # own iterations - the sub-step at which the first loop emitted must not be carried into the other group
+        sib = grp[:-1] + [9]
+        if not any(x["sid"] == "Se" for x in sims):
+            sims += [{"sid": "Se", "type": "hybrid", "gpath": sib}]
+            conns.append({"src": "Se", "dst": "Se", "sa": "e", "da": "ti", "weak": True})
+        else:
+            next(x for x in sims if x["sid"] == "Se")["gpath"] = sib
+        conns.append({"src": sims[rng2.randrange(n)]["sid"], "dst": "Se", "sa": "e", "da": "ti2"})
     scn = S.normalize({"sims": sims, "conns": conns, "until": rng.randint(1, 3), "maxloop": rng.choice([0, 1, 2, 3, 5]),
                        "lazy": rng.random() < 0.5, "cache": rng.random() < 0.5})
     beh = {"kind": "random", "p_event": rng.choice([0.5, 0.8, 1.0]), "p_future": 0.0, "ev_next": [None, None, 1]}
+    if any(c["da"] == "ti2" and c["dst"] == "Se" for c in conns) and rng2.random() < 0.7:
+        # loops that mostly SETTLE, each within the bound, while the iterations of both together reach it
+        scn["maxloop"] = rng2.choice([3, 4, 5, 6])
+        beh["p_event"] = rng2.choice([0.5, 0.6, 0.7])
     if rng.random() < 0.2:
         scn = S.rename_sids(scn)  # the error must name the simulator whatever characters its id contains
     if rng.random() < 0.3:
